@@ -113,6 +113,29 @@ def _job_worker(job):
                 'clauses': {}, 'safety': [], 'inputs': {}, 'seconds': 0, 'solver_s': 0, 'backend': None, 'log': ''}
 
 
+def call_chain_to(mod, root, pattern):
+    """first call chain root -> ... -> callee whose name matches pattern, following calls to functions defined in the module; None if none"""
+    rx = re.compile(pattern)
+    seen = {root}
+    stack = [(root, [root])]
+    while stack:
+        fn, chain = stack.pop()
+        f = mod.funcs.get(fn)
+        if f is None or not f.defined:
+            continue
+        for b in f.blocks:
+            for ins in b.instrs:
+                if ins.op not in ('call', 'invoke') or not ins.ops or ins.ops[0][0] != 'global':
+                    continue
+                callee = ins.ops[0][1]
+                if rx.search(callee):
+                    return chain + [callee]
+                if callee not in seen:
+                    seen.add(callee)
+                    stack.append((callee, chain + [callee]))
+    return None
+
+
 def parse_num(v):
     try:
         return int(v, 0)
@@ -327,6 +350,26 @@ class Prop:
         pending = []
         known_lines = []
         undecided = list(infra)
+        struct_violations = []
+        for c in contracts:
+            # structural obligation (contract option forbid_calls=regex): no call reachable from the function under contract, in the extracted
+            # module, has a callee matching the regex (e.g. hardware reciprocal approximations in a non-lowp function).  Decided by a scan of
+            # the IR call graph, independently of (and before) the value clauses, which may not even be expressible then.
+            fc = getattr(c, 'forbid_calls', None)
+            if fc and c.build in self.builds and getattr(self.builds[c.build], 'mod', None) is not None:
+                chain = call_chain_to(self.builds[c.build].mod, (c.sig or {}).get('ir', c.fn) if c.sig else c.fn, fc)
+                oid = '%s%s.structure:no_call_matching' % (c.fn, ('[%s]' % c.build) if multi.get(c.fn, 0) > 1 else '')
+                obligations.append({'id': oid, 'kind': 'S', 'backend': 'ir-call-graph-scan', 'seconds': 0, 'status': 'refuted' if chain else 'discharged',
+                                    'real': c.real, 'build': c.build, 'pattern': fc})
+                if chain:
+                    path = os.path.join(VERIF, 'replay', '%s_%s%s.structure_no_call_matching.json' % (
+                        self.id, re.sub(r'\W', '_', c.fn)[:60], ('@' + re.sub(r'\W', '_', c.build)) if multi.get(c.fn, 0) > 1 else ''))
+                    json.dump({'property': self.id, 'obligation': oid, 'function': c.fn, 'real': c.real, 'build': c.build, 'kind': 'S',
+                               'clause': 'no call reachable from the function has a callee matching /%s/' % fc,
+                               'verifier': {'backend': 'ir-call-graph-scan', 'status': 'FAILURE', 'log': 'call chain: ' + ' -> '.join(chain)},
+                               'inputs': {}, 'why': 'structural: holds for no input or for all', 'reproduced_on_real_code': False}, open(path, 'w'), indent=1)
+                    struct_violations.append({'line': 'VIOLATION property=%s replay=%s no-failing-input-found' % (self.id, path), 'obligation': oid, 'path': path,
+                                              'reproduced': False})
         for c in contracts:
             ckey = c.fn + '@' + c.build
             if ckey not in results:
@@ -418,6 +461,7 @@ class Prop:
                     pending.append((c, sig, name, name, r, wd, ''))
         with ThreadPoolExecutor(max_workers=NPROC) as ex:
             violations = list(ex.map(lambda a: self.make_violation(*a), pending))
+        violations = struct_violations + violations
         # ---------------- report
         for l in known_lines:
             print(l)
